@@ -246,7 +246,8 @@ TWatchReturn ==
 EvRec(t) == [type |-> t[1], key |-> t[2], rev |-> t[3], val |-> t[4], kvrev |-> t[5]]
 MatchesLog(e) ==
     \E g \in evlog : /\ g.rev = e.rev /\ g.key = e.key /\ g.val = e.val /\ g.kvrev = e.kvrev
-                     /\ (g.type = e.type \/ (g.type = "ANYPUT" /\ e.type \in {EvCreate, EvPut}))
+                     /\ (g.type = e.type \/ (g.type = "ANYPUT" /\ e.type \in {EvCreate, EvPut})
+                            \/ (e.type = "EPUT" /\ g.type \in {EvCreate, EvPut, "ANYPUT"}))   \* etcd knows PUT only
 
 \* checks for appending event e to a watcher that last delivered revision lastRev
 RecvChecks(w, e, lastRev) ==
@@ -355,11 +356,21 @@ ReadChecks(o, e) ==
                     IF TouchesStar(e.hdr, o.lo, o.hi) THEN "TombValueReadable" ELSE "CountIsSnapshot") ELSE {})
       [] OTHER -> {}
 
+\* the etcd endpoint additionally returns a count: the number of keys in the range at the read
+\* revision regardless of the limit (a point read: the number of kvs returned)
+EtcdCountChecks(o, e) ==
+    IF e.api # "etcd" \/ e.err # "" \/ e.ecount < 0 THEN {}
+    ELSE LET R == IF o.rev = 0 THEN e.hdr ELSE o.rev IN
+         CASE o.op = "get" -> V(e.ecount = Len(e.kvs), "EtcdPointCount")
+           [] o.op = "list" /\ R >= floor /\ (o.rev = 0 \/ o.rev <= o.cm0) /\ ~TouchesStar(R, o.lo, o.hi) ->
+                 V(e.ecount = Len(RangeRef(hv, KS, R, o.lo, o.hi, 0).kvs), "EtcdCountTotal")
+           [] OTHER -> {}
+
 TRReturn ==
     /\ Is("RReturn") /\ Adv
     /\ HasPend(E.p)
     /\ LET o == PendOf(E.p) IN
-       /\ viol' = viol \cup ReadChecks(o, E)
+       /\ viol' = viol \cup ReadChecks(o, E) \cup EtcdCountChecks(o, E)
        /\ pend' = pend \ {o}
        /\ rds' = IF o.op = "list" /\ E.err = "" /\ o.limit = 0 /\ o.pfx >= 0
                  THEN rds \cup {[prefix |-> o.pfx, hdr |-> IF o.rev = 0 THEN E.hdr ELSE o.rev, kvs |-> E.kvs, full |-> TRUE]}
@@ -472,6 +483,8 @@ M_NoSkip                == NoViol("NoSkip")
 M_NothingAfterClose     == NoViol("NothingAfterClose")
 M_CompleteAtQuiescence  == NoViol("CompleteAtQuiescence")
 M_ListWatchAgree        == NoViol("ListWatchAgree")
+M_EtcdCountTotal        == NoViol("EtcdCountTotal")
+M_EtcdPointCount        == NoViol("EtcdPointCount")
 M_ReadIsSnapshot        == NoViol("ReadIsSnapshot")
 M_MoreFlag              == NoViol("MoreFlag")
 M_CountIsSnapshot       == NoViol("CountIsSnapshot")
